@@ -1032,6 +1032,11 @@ class FromStatement(GroupedElement, Generative, TypedReturnsRows[Unpack[_Ts]]):
         if toplevel:
             compiler.compile_state = compile_state
 
+        # values given with .params() on this statement itself; the inner
+        # statement is visited below and contributes its own
+        if getattr(compiler, "_collect_params", False):
+            compiler._add_to_params(self)
+
         return compiler.process(compile_state.statement, **kw)
 
     @property
